@@ -2,7 +2,7 @@
 # Runs the designated check (quick tier; thorough if quick stays silent) against every seeded change and records the outcome in meta.json.
 # usage: run_seeded.sh [ids...]   (default: all)
 set -u
-cd /verif
+HERE="$(cd "$(dirname "$0")/.." && pwd)"; cd "$HERE"
 ids=("$@"); [ ${#ids[@]} -eq 0 ] && ids=($(ls seeded))
 for id in "${ids[@]}"; do
   d=seeded/$id; prop=${id%%-*}
@@ -10,10 +10,10 @@ for id in "${ids[@]}"; do
   cw=$(python3 -c "import json,sys;print(json.load(open('$d/meta.json')).get('check_with',''))" 2>/dev/null); [ -n "$cw" ] && prop=$cw
   race=0; [ "$prop" = C03 ] && race=1
   t0=$(date +%s)
-  out=$(VERIF_BUILD_RACE=$race VERIF_MINIMISE_S=15 scripts/with_tree.sh -p /verif/$d/patch.diff -- ./check $prop quick 2>&1); rc=$?
+  out=$(VERIF_BUILD_RACE=$race VERIF_MINIMISE_S=15 scripts/with_tree.sh -p $HERE/$d/patch.diff -- ./check $prop quick 2>&1); rc=$?
   tier=quick
   if [ $rc -eq 0 ]; then
-    out=$(VERIF_BUILD_RACE=$race VERIF_MINIMISE_S=15 VERIF_BUDGET_S=900 scripts/with_tree.sh -p /verif/$d/patch.diff -- ./check $prop thorough 2>&1); rc=$?; tier=thorough
+    out=$(VERIF_BUILD_RACE=$race VERIF_MINIMISE_S=15 VERIF_BUDGET_S=900 scripts/with_tree.sh -p $HERE/$d/patch.diff -- ./check $prop thorough 2>&1); rc=$?; tier=thorough
   fi
   t1=$(date +%s)
   classes=$(echo "$out" | grep -o 'class=[^ ]*' | sed 's/class=//' | sort -u | tr '\n' ' ')
